@@ -14,6 +14,7 @@ CHECKS = {
  "C04": ("proof", AI + "; region checks on returned forms", "all 8 integral carriers, both directions and the round trip, whole type ranges", "5 (C04)"),
  "C06": ("proof", AI + "; predicate refinement both ways", "six comparisons, sentinels, isnan, unary minus, abs over [-NaN,NaN]", "5 (C06)"),
  "C07": ("proof", AI + "; trap-site reachability with alarm-driven value partitioning", "every sanitizer trap site and table load reachable from any public entry point is unreachable for all inputs of the precondition box, per configuration", "3, 5 (C07)"),
+ "C08": ("other", "static analysis: clang-query AST rules (constexpr closure, false const/pure attributes) over the instantiated driver TU; " + AI + "; summary equivalence of the -std=c++17 and -std=c++20 builds", "constexpr closure in K17A/K20; c++17 vs c++20 summary equivalence of every wrapper; fmuladd contraction safety; no UB (optimisation-level independence). NOT decided: the two sqrt algorithms differ by <= 1 ulp; code generators trusted. 10 recorded findings (lookup-table family not constexpr)", "5 (C08), 6, 7"),
  "C15": ("proof", AI + "; region checks and summary equivalence", "floor/ceil bracket, integrality, fixed points, ceil == -floor(-x) on the whole stated domain", "5 (C15)"),
  "C16": ("translation_validation", AI + "; summary equivalence of mixed-type operator vs explicitly promoted program; static_assert type witnesses", "9 carriers x 4 operators x 2 orders + 36 compound forms + double operand order", "5 (C16)"),
  "C17": ("proof", AI + "; summary equivalence / region checks on composed wrappers", "commutativity, a-b==a+(-b), identities, associativity and cancellation on the no-NaN regions; n-fold sum by instances + induction lemma", "5 (C17)"),
